@@ -322,7 +322,7 @@ func notaryScenario(w *World, p *Plan, rec *Record) {
 				w.violate("C16", "accepted", "invalid-request-accepted:"+desc, n.Idx, "%s returned no error", name)
 			}
 			simrt.SleepFor(30 * time.Millisecond)
-			if after := stateOf(n); after != before && quietBefore && w.Net.quiet() && netMark == len(w.Net.Log) && callMark == len(w.AccCalls) && !w.ledgerMovedLegitimately(n) {
+			if after := stateOf(n); stateChanged(before, after) && quietBefore && w.Net.quiet() && netMark == len(w.Net.Log) && callMark == len(w.AccCalls) && !w.ledgerMovedLegitimately(n) {
 				w.violate("C16", "state", "invalid-request-changed-state:"+desc, n.Idx, "%s changed %s (%s)", name, stateDiff(before, after), w.cacheDelta(n.Idx))
 			}
 		case "waiting", "history", "balance":
